@@ -342,7 +342,16 @@ func (fg *FnGen) inlineable(f *ssa.Function, depth int) bool {
 		return v && depth < 5
 	}
 	if len(f.Blocks) == 0 && f.Pkg != nil {
-		f.Pkg.Build() // on-demand SSA construction of dependency packages (idempotent)
+		// on-demand SSA construction of dependency packages (idempotent); go/ssa can panic while building instantiation
+		// wrappers of some generic standard-library functions: such a callee is simply not inlined
+		func() {
+			defer func() {
+				if r := recover(); r != nil {
+					fg.note("go/ssa could not build " + f.Pkg.Pkg.Path() + " on demand: its functions are not inlined")
+				}
+			}()
+			f.Pkg.Build()
+		}()
 	}
 	ok := true
 	if len(f.Blocks) == 0 || f.Recover != nil {
@@ -563,8 +572,10 @@ func (fg *FnGen) applyContract(fr *Frame, ct *Contract, d callDesc, args []*Term
 	for _, e := range ct.Ensures {
 		v, err := env2.evalBool(e.Expr)
 		if err != nil {
-			if mentionsCalleeGhost(ct, err) {
-				continue // a clause over the callee's own ghost trace is not visible to callers
+			if mentionsCalleeGhost(ct, err) || (!ct.Trusted && strings.Contains(err.Error(), "unknown name")) {
+				// a clause over the callee's own ghost trace or source-level locals is not visible to callers (it is still an
+				// obligation of the callee itself, where a misspelt name shows up as a binding failure)
+				continue
 			}
 			fg.bindFailure(fmt.Sprintf("post@%s:%s", d.short, e.Label), err, pos)
 			continue
